@@ -350,6 +350,56 @@ fn kernel_hex_rl(tally: &mut Tally) {
             }
         }
     }
+    // layout product: n = 0..=6 digits, a white-space run of length 0, 1 or 2 in every gap (before the
+    // first digit, between digits, before '>'), for each of two white-space alphabets; odd n leaves the
+    // final 0 digit out, as the specification allows
+    let digits_src = b"4a7C0f";
+    for n in 0..=digits_src.len() {
+        let gaps = n + 1;
+        let total = 3usize.pow(gaps as u32);
+        for code in 0..total {
+            for wsa in 0..2usize {
+                let mut enc = vec![];
+                let mut c = code;
+                let mut nws = 0usize;
+                for g in 0..gaps {
+                    let run = c % 3;
+                    c /= 3;
+                    for k in 0..run {
+                        enc.push(if wsa == 0 { b'\n' } else { WS[(g + k + nws) % WS.len()] });
+                        nws += 1;
+                    }
+                    if g < n {
+                        enc.push(digits_src[g]);
+                    }
+                }
+                enc.push(b'>');
+                if code == 0 && wsa == 1 {
+                    continue;
+                }
+                let mut ds: Vec<u8> = digits_src[..n].to_vec();
+                if n % 2 == 1 {
+                    ds.push(b'0');
+                }
+                let want: Vec<u8> = ds.chunks(2).map(|p| {
+                    let h = (p[0] as char).to_digit(16).unwrap() as u8;
+                    let l = (p[1] as char).to_digit(16).unwrap() as u8;
+                    h << 4 | l
+                }).collect();
+                t.evaluations += 1;
+                t.distinct.insert(fnv(&enc));
+                match decode_check(&f, &enc, &want) {
+                    Ok(()) => t.outcome("ok"),
+                    Err((kind, detail)) => {
+                        t.outcome(&kind);
+                        let mut devs = vec![format!("digits={}", if n % 2 == 1 { "odd" } else { "even" }), format!("white-space={}", if nws % 2 == 1 { "odd" } else if nws == 0 { "none" } else { "even" })];
+                        devs.push(format!("n={}", n));
+                        t.fail("c05.hexlayout", &kind, devs, detail, json!({"engine": "c05.hexpair", "encoded_hex": hex(&enc), "want_hex": hex(&want)}));
+                    }
+                }
+            }
+        }
+    }
     // run-length: every header byte with matching payload, alone and followed by a second run, with and without EOD
     let f = StreamFilter::RunLengthDecode;
     for h in 0..=255u8 {
@@ -530,6 +580,34 @@ fn geometry_case(ch: &mut Chooser, t: &mut Tally) {
             // geometry findings are classified by the parameters, not by the data variant, unless the default data passes
             let devs = ch.deviations();
             t.fail("c05.geometry", &kind, devs, detail, ch.replay_value("c05.geometry"));
+        }
+    }
+    // the same geometry over predicted data that does not end on a row boundary (one byte short, one byte
+    // into the last row, one byte extra): a value or an error, never a panic
+    let prow = if (10..=15).contains(&predictor) { rb + 1 } else { rb };
+    let mut cuts = vec![predicted.len() - 1, predicted.len() - prow + 1, predicted.len() + 1];
+    cuts.dedup();
+    for cut in cuts {
+        let mut p = predicted.clone();
+        p.resize(cut, 0x55);
+        let enc = match carrier {
+            0 => pf::flate_encode(&p, FlateStyle::ZlibDefault),
+            1 => pf::lzw_encode(&p, true, 0),
+            2 => pf::lzw_encode(&p, false, 0),
+            _ => pf::flate_encode(&p, FlateStyle::RawDefault),
+        };
+        t.evaluations += 1;
+        t.distinct.insert(fnv_mix(fnv(&enc), (pred * 1000 + colors * 100 + bpc * 10 + columns) as u64));
+        match catch(|| decode(&enc, &f)) {
+            Ok(Ok(_)) => t.outcome("value"),
+            Ok(Err(_)) => t.outcome("error"),
+            Err((loc, msg)) => {
+                let kind = panic_kind(&loc);
+                t.outcome(&kind);
+                let mut devs = ch.deviations();
+                devs.push("partial-last-row".into());
+                t.fail("c05.geometry", &kind, devs, format!("decoded length {} (row {}): {}", cut, prow, msg), ch.replay_value("c05.geometry"));
+            }
         }
     }
 }
